@@ -48,3 +48,644 @@ Proof.
     + intros [H1 H2]. constructor; assumption.
     + intro H. inversion H; subst. split; assumption.
 Qed.
+
+(* ---- store basics -------------------------------------------------------------- *)
+Lemma sget_alloc_old : forall s o r, r < List.length s -> sget (s ++ [o]) r = sget s r.
+Proof. intros. unfold sget. apply nth_error_app1. assumption. Qed.
+
+Lemma sget_alloc_new : forall s o, sget (s ++ [o]) (List.length s) = Some o.
+Proof. intros. unfold sget. rewrite nth_error_app2 by lia. rewrite Nat.sub_diag. reflexivity. Qed.
+
+Lemma sget_lt : forall s r o, sget s r = Some o -> r < List.length s.
+Proof. intros s r o H. apply nth_error_Some. unfold sget in H. congruence. Qed.
+
+Lemma sset_length : forall s r o, List.length (sset s r o) = List.length s.
+Proof. induction s as [|x s IH]; intros [|r] o; cbn [sset List.length]; auto. Qed.
+
+Lemma sget_sset_other : forall s r r' o, r' <> r -> sget (sset s r o) r' = sget s r'.
+Proof.
+  unfold sget. induction s as [|x s IH]; intros [|r] [|r'] o H; cbn [sset nth_error]; auto; try congruence.
+  all: try (apply IH; congruence).
+Qed.
+
+Lemma sget_sset_same : forall s r o, r < List.length s -> sget (sset s r o) r = Some o.
+Proof.
+  unfold sget. induction s as [|x s IH]; intros [|r] o H; cbn [sset nth_error List.length] in *; try lia; auto.
+  all: try (apply IH; lia).
+Qed.
+
+(* two stores agree on the references satisfying P *)
+Definition agree (P : ref -> Prop) (s s' : store) : Prop := forall r, P r -> sget s' r = sget s r.
+
+Lemma agree_trans : forall (P Q : ref -> Prop) s1 s2 s3,
+  (forall r, Q r -> P r) -> agree P s1 s2 -> agree Q s2 s3 -> agree Q s1 s3.
+Proof. intros P Q s1 s2 s3 HQP H12 H23 r Hr. rewrite (H23 r Hr). apply H12. auto. Qed.
+
+Lemma agree_alloc : forall s o, agree (fun r => r < List.length s) s (s ++ [o]).
+Proof. intros s o r Hr. apply sget_alloc_old. exact Hr. Qed.
+
+Definition refs_in (P : ref -> Prop) (m : list (string * ref)) : Prop := Forall (fun kr => P (snd kr)) m.
+
+Lemma refs_in_weaken : forall (P Q : ref -> Prop) m, (forall r, P r -> Q r) -> refs_in P m -> refs_in Q m.
+Proof. intros P Q m H F. unfold refs_in in *. eapply Forall_impl; [|exact F]. intros a Ha. apply H, Ha. Qed.
+
+Lemma deref_slices_agree : forall P s s' m, refs_in P m -> agree P s s' -> deref_slices s' m = deref_slices s m.
+Proof.
+  intros P s s'. induction m as [|[k r] m IH]; intros F A; cbn [deref_slices]; [reflexivity|].
+  inversion F as [|x l Hx Hl]; subst. cbn [snd] in Hx. rewrite (A r Hx), (IH Hl A). reflexivity.
+Qed.
+
+(* ---- store extension (allocation only) ------------------------------------------- *)
+Definition ext (s s' : store) : Prop := exists t, s' = s ++ t.
+
+Lemma ext_refl : forall s, ext s s.
+Proof. intro s. exists []. rewrite app_nil_r. reflexivity. Qed.
+Lemma ext_trans : forall a b c, ext a b -> ext b c -> ext a c.
+Proof. intros a b c [t ->] [u ->]. exists (t ++ u). rewrite app_assoc. reflexivity. Qed.
+Lemma ext_alloc : forall s o, ext s (s ++ [o]).
+Proof. intros. exists [o]. reflexivity. Qed.
+Lemma ext_len : forall s s', ext s s' -> List.length s <= List.length s'.
+Proof. intros s s' [t ->]. rewrite app_length. lia. Qed.
+Lemma ext_sget : forall s s' r, ext s s' -> r < List.length s -> sget s' r = sget s r.
+Proof. intros s s' r [t ->] H. unfold sget. apply nth_error_app1. exact H. Qed.
+Lemma ext_agree : forall s s', ext s s' -> agree (fun r => r < List.length s) s s'.
+Proof. intros s s' E r Hr. apply ext_sget; assumption. Qed.
+Lemma ext_sget_some : forall s s' r o, ext s s' -> sget s r = Some o -> sget s' r = Some o.
+Proof. intros s s' r o E G. rewrite (ext_sget s s' r E); [exact G | eapply sget_lt; exact G]. Qed.
+
+Lemma deref_slices_lt : forall s m x, deref_slices s m = Some x -> refs_in (fun r => r < List.length s) m.
+Proof.
+  intros s. induction m as [|[k r] m IH]; intros x D; [constructor|].
+  cbn [deref_slices] in D. destruct (sget s r) as [[| | l| |]|] eqn:G; try discriminate.
+  destruct (deref_slices s m) eqn:D2; try discriminate.
+  constructor; [cbn [snd]; eapply sget_lt; exact G | eapply IH; reflexivity].
+Qed.
+
+Lemma deref_slices_ext : forall s s' m x, ext s s' -> deref_slices s m = Some x -> deref_slices s' m = Some x.
+Proof.
+  intros s s' m x E D. rewrite <- D.
+  apply (deref_slices_agree (fun r => r < List.length s)); [eapply deref_slices_lt; exact D | apply ext_agree; exact E].
+Qed.
+
+Lemma deref_map_ext : forall s s' r x, ext s s' -> deref_map s r = Some x -> deref_map s' r = Some x.
+Proof.
+  intros s s' r x E D. unfold deref_map in *. destruct (sget s r) as [[|m| | |]|] eqn:G; try discriminate.
+  rewrite (ext_sget_some _ _ _ _ E G). eapply deref_slices_ext; eassumption.
+Qed.
+
+Lemma alloc_slices_spec : forall m s s2 t,
+  alloc_slices s m = (s2, t) ->
+  ext s s2 /\ refs_in (fun r => List.length s <= r < List.length s2) t /\ deref_slices s2 t = Some m.
+Proof.
+  induction m as [|[k l] m IH]; intros s s2 t E; cbn [alloc_slices] in E.
+  - inversion E; subst. split; [apply ext_refl|]. split; [constructor | reflexivity].
+  - unfold alloc in E.
+    destruct (alloc_slices (s ++ [OSlice l]) m) as [s2' t'] eqn:E2. inversion E; subst. clear E.
+    destruct (IH _ _ _ E2) as [X [F D]].
+    pose proof (ext_len _ _ X) as L. rewrite app_length in L. cbn [List.length] in L.
+    split; [eapply ext_trans; [apply ext_alloc | exact X]|]. split.
+    + constructor; [cbn [snd]; lia|].
+      unfold refs_in in F. eapply Forall_impl; [|exact F]. cbn beta. intros a Ha.
+      rewrite app_length in Ha. cbn [List.length] in Ha. lia.
+    + cbn [deref_slices]. rewrite (ext_sget_some _ _ _ _ X (sget_alloc_new s (OSlice l))), D. reflexivity.
+Qed.
+
+Lemma key_eqb_eq : forall a b, key_eqb a b = true <-> a = b.
+Proof. intros. unfold key_eqb. apply list_eqb_spec. intros. apply Nat.eqb_eq. Qed.
+
+Section Frame.
+  Variable mk_names : list idxid -> list (string * list pid).
+  Variable mk_iif : list idxid -> list (string * list pid).
+  Variable dq_diff : list (string * list idxid) -> list pid.
+  Variable dkey : list (string * list idxid) -> list idxid.
+  Variable R : Type.
+  Variable core : store -> handles -> list string -> store * R.
+
+  (* THE FRAME HYPOTHESIS about the resolver core *)
+  Definition CoreWritesOnlyOwned : Prop :=
+    forall s h w r, r <> h_sel (hs_res h) -> r <> hs_dq h -> sget (fst (core s h w)) r = sget s r.
+  Definition CoreKeepsLength : Prop :=
+    forall s h w, List.length s <= List.length (fst (core s h w)).
+  Definition CoreReadsThroughHandles : Prop :=
+    forall s s' h h' w, view s h = view s' h' -> snd (core s h w) = snd (core s' h' w).
+
+  Hypothesis core_frame : CoreWritesOnlyOwned.
+  Hypothesis core_len : CoreKeepsLength.
+  Hypothesis core_reads : CoreReadsThroughHandles.
+
+  Notation call_step := (call_step mk_names mk_iif dq_diff dkey R core).
+  Notation run_history := (run_history mk_names mk_iif dq_diff dkey R core).
+  Notation result_after := (result_after mk_names mk_iif dq_diff dkey R core).
+  Notation result_fresh := (result_fresh mk_names mk_iif dq_diff dkey R core).
+  Notation resolver_get := (resolver_get mk_names mk_iif).
+  Notation dq_get := (dq_get dq_diff dkey).
+
+  (* a cached prototype: everything it reaches is in P, and it is what
+     newPkgResolver builds for its key, with an EMPTY selected *)
+  Definition proto_ok (P : ref -> Prop) (s : store) (ixs : list idxid) (h : rhandle) : Prop :=
+    exists nm im,
+      P (h_idx h) /\ P (h_names h) /\ P (h_iif h) /\ P (h_sel h) /\ refs_in P nm /\ refs_in P im /\
+      sget s (h_idx h) = Some (OIdx ixs) /\
+      sget s (h_names h) = Some (OMap nm) /\ deref_slices s nm = Some (mk_names ixs) /\
+      sget s (h_iif h) = Some (OMap im) /\ deref_slices s im = Some (mk_iif ixs) /\
+      sget s (h_sel h) = Some (OSel []).
+
+  (* a cached disqualification map: what disqualifyDifference gave for the
+     grouping of SOME call of the history that has this key *)
+  Definition dq_ok (P : ref -> Prop) (hist : list call) (s : store) (k : list idxid) (r : ref) : Prop :=
+    P r /\ exists a, In a (List.map cl_archs hist) /\ dkey a = k /\ sget s r = Some (ODq (dq_diff a)).
+
+  Definition Inv (P : ref -> Prop) (hist : list call) (x : state) : Prop :=
+    (forall k h, find_key k (rcache x) = Some h -> proto_ok P (st x) k h) /\
+    (forall k r, find_key k (dcache x) = Some r -> dq_ok P hist (st x) k r).
+
+  Lemma proto_ok_agree : forall P s s' k h, proto_ok P s k h -> agree P s s' -> proto_ok P s' k h.
+  Proof.
+    intros P s s' k h [nm [im [P1 [P2 [P3 [P4 [F1 [F2 [G1 [G2 [D1 [G3 [D2 G4]]]]]]]]]]]]] A.
+    exists nm, im. rewrite !(A _ P1), !(A _ P2), !(A _ P3), !(A _ P4),
+      (deref_slices_agree P s s' nm F1 A), (deref_slices_agree P s s' im F2 A). tauto.
+  Qed.
+
+  Lemma proto_ok_weaken : forall (P Q : ref -> Prop) s k h, (forall r, P r -> Q r) -> proto_ok P s k h -> proto_ok Q s k h.
+  Proof.
+    intros P Q s k h W [nm [im [P1 [P2 [P3 [P4 [F1 [F2 G]]]]]]]].
+    exists nm, im. repeat split; try (apply W; assumption); try (eapply refs_in_weaken; eassumption); tauto.
+  Qed.
+
+  Lemma dq_ok_agree : forall P hist s s' k r, dq_ok P hist s k r -> agree P s s' -> dq_ok P hist s' k r.
+  Proof. intros P hist s s' k r [Pr [a [I [K G]]]] A. split; [exact Pr|]. exists a. rewrite (A _ Pr). tauto. Qed.
+
+  Lemma dq_ok_weaken : forall (P Q : ref -> Prop) hist s k r, (forall r, P r -> Q r) -> dq_ok P hist s k r -> dq_ok Q hist s k r.
+  Proof. intros P Q hist s k r W [Pr E]. split; [apply W; exact Pr | exact E]. Qed.
+
+  Lemma dq_ok_hist : forall P hist c s k r, dq_ok P hist s k r -> dq_ok P (hist ++ [c]) s k r.
+  Proof.
+    intros P hist c s k r [Pr [a [I E]]]. split; [exact Pr|]. exists a. split; [|exact E].
+    rewrite map_app. apply in_or_app. left. exact I.
+  Qed.
+
+  Lemma inv_agree : forall P hist x s', Inv P hist x -> agree P (st x) s' ->
+    Inv P hist {| st := s'; rcache := rcache x; dcache := dcache x |}.
+  Proof.
+    intros P hist x s' [I1 I2] A. split; cbn [st rcache dcache]; intros k h F.
+    - eapply proto_ok_agree; [apply I1; exact F | exact A].
+    - eapply dq_ok_agree; [apply I2; exact F | exact A].
+  Qed.
+
+  Lemma inv_weaken : forall (P Q : ref -> Prop) hist x, (forall r, P r -> Q r) -> Inv P hist x -> Inv Q hist x.
+  Proof.
+    intros P Q hist x W [I1 I2]. split; intros k h F.
+    - eapply proto_ok_weaken; [exact W | apply I1; exact F].
+    - eapply dq_ok_weaken; [exact W | apply I2; exact F].
+  Qed.
+
+  Lemma inv_hist : forall P hist c x, Inv P hist x -> Inv P (hist ++ [c]) x.
+  Proof. intros P hist c x [I1 I2]. split; [exact I1|]. intros k r F. apply dq_ok_hist, I2, F. Qed.
+
+  (* ---- what a fresh clone looks like -------------------------------------------- *)
+  Definition view_ok (s : store) (h : rhandle) (k : list idxid) : Prop :=
+    sget s (h_idx h) = Some (OIdx k) /\ deref_map s (h_names h) = Some (mk_names k) /\
+    deref_map s (h_iif h) = Some (mk_iif k) /\ sget s (h_sel h) = Some (OSel []).
+
+  Lemma view_ok_ext : forall s s' h k, ext s s' -> view_ok s h k -> view_ok s' h k.
+  Proof.
+    intros s s' h k E [A [B [C D]]]. unfold view_ok.
+    rewrite (ext_sget_some _ _ _ _ E A), (deref_map_ext _ _ _ _ E B), (deref_map_ext _ _ _ _ E C), (ext_sget_some _ _ _ _ E D). tauto.
+  Qed.
+
+  Lemma build_resolver_spec : forall s ixs s' h,
+    build_resolver mk_names mk_iif s ixs = (s', h) ->
+    ext s s' /\ proto_ok (fun r => List.length s <= r < List.length s') s' ixs h.
+  Proof.
+    intros s ixs s' h H. unfold build_resolver, alloc in H.
+    destruct (alloc_slices (s ++ [OIdx ixs]) (mk_names ixs)) as [s2 nm] eqn:E1.
+    destruct (alloc_slices (s2 ++ [OMap nm]) (mk_iif ixs)) as [s4 im] eqn:E2.
+    inversion H; subst; clear H.
+    destruct (alloc_slices_spec _ _ _ _ E1) as [X1 [F1 D1]].
+    destruct (alloc_slices_spec _ _ _ _ E2) as [X2 [F2 D2]].
+    set (S := (s4 ++ [OMap im]) ++ [OSel []]).
+    assert (Xa : ext (s4 ++ [OMap im]) S) by apply ext_alloc.
+    assert (Xb : ext s4 S) by (eapply ext_trans; [apply ext_alloc | exact Xa]).
+    assert (Xc : ext (s2 ++ [OMap nm]) S) by (eapply ext_trans; [exact X2 | exact Xb]).
+    assert (Xd : ext s2 S) by (eapply ext_trans; [apply ext_alloc | exact Xc]).
+    assert (Xe : ext (s ++ [OIdx ixs]) S) by (eapply ext_trans; [exact X1 | exact Xd]).
+    assert (Xf : ext s S) by (eapply ext_trans; [apply ext_alloc | exact Xe]).
+    pose proof (ext_len _ _ X1) as L1. pose proof (ext_len _ _ X2) as L2.
+    rewrite app_length in L1, L2. cbn [List.length] in L1, L2.
+    assert (LS : List.length S = List.length s4 + 2) by (unfold S; rewrite !app_length; cbn [List.length]; lia).
+    split; [exact Xf|]. exists nm, im. cbn [h_idx h_names h_iif h_sel]. rewrite LS.
+    split; [lia|]. split; [lia|]. split; [lia|]. split; [rewrite app_length; cbn [List.length]; lia|].
+    split. { unfold refs_in in *. eapply Forall_impl; [|exact F1]. cbn beta. intros a Ha. rewrite app_length in Ha. cbn [List.length] in Ha. lia. }
+    split. { unfold refs_in in *. eapply Forall_impl; [|exact F2]. cbn beta. intros a Ha. rewrite app_length in Ha. cbn [List.length] in Ha. lia. }
+    split; [apply (ext_sget_some _ _ _ _ Xe), sget_alloc_new|].
+    split; [apply (ext_sget_some _ _ _ _ Xc), sget_alloc_new|].
+    split; [apply (deref_slices_ext _ _ _ _ Xd D1)|].
+    split; [apply (ext_sget_some _ _ _ _ Xa), sget_alloc_new|].
+    split; [apply (deref_slices_ext _ _ _ _ Xb D2)|].
+    apply sget_alloc_new.
+  Qed.
+
+  Lemma clone_resolver_spec : forall P s k proto s' h',
+    proto_ok P s k proto -> clone_resolver s proto = (s', h') ->
+    ext s s' /\ List.length s' = List.length s + 3 /\ h_sel h' = List.length s + 2 /\ view_ok s' h' k.
+  Proof.
+    intros P s k proto s' h' [nm [im [_ [_ [_ [_ [_ [_ [G1 [G2 [D1 [G3 [D2 _]]]]]]]]]]]]] H.
+    unfold clone_resolver, alloc in H. rewrite G2, G3 in H. inversion H; subst; clear H.
+    set (S := ((s ++ [OMap nm]) ++ [OMap im]) ++ [OSel []]).
+    assert (Xa : ext ((s ++ [OMap nm]) ++ [OMap im]) S) by apply ext_alloc.
+    assert (Xb : ext (s ++ [OMap nm]) S) by (eapply ext_trans; [apply ext_alloc | exact Xa]).
+    assert (Xc : ext s S) by (eapply ext_trans; [apply ext_alloc | exact Xb]).
+    split; [exact Xc|]. split; [unfold S; rewrite !app_length; cbn [List.length]; lia|].
+    cbn [h_sel]. split; [rewrite !app_length; cbn [List.length]; lia|].
+    unfold view_ok, deref_map. cbn [h_idx h_names h_iif h_sel].
+    rewrite (ext_sget_some _ _ _ _ Xc G1).
+    rewrite (ext_sget_some _ _ _ _ Xb (sget_alloc_new s (OMap nm))).
+    rewrite (ext_sget_some _ _ _ _ Xa (sget_alloc_new (s ++ [OMap nm]) (OMap im))).
+    rewrite (deref_slices_ext _ _ _ _ Xc D1), (deref_slices_ext _ _ _ _ Xc D2).
+    unfold S. rewrite sget_alloc_new. tauto.
+  Qed.
+
+  (* ---- the invariant of the process-wide state ------------------------------------
+     every cached object is below the allocation pointer and outside [ex] (the
+     references some running resolution owns) *)
+  Definition InvL (ex : list ref) (hist : list call) (x : state) : Prop :=
+    Inv (fun r => r < List.length (st x) /\ ~ In r ex) hist x.
+
+  Lemma InvL_ext : forall ex hist x s',
+    InvL ex hist x -> ext (st x) s' -> InvL ex hist {| st := s'; rcache := rcache x; dcache := dcache x |}.
+  Proof.
+    intros ex hist x s' I E. unfold InvL. cbn [st].
+    eapply inv_weaken; [|eapply inv_agree; [exact I|]].
+    - cbn beta. intros r [Hr He]. split; [pose proof (ext_len _ _ E); lia | exact He].
+    - intros r [Hr _]. apply ext_sget; assumption.
+  Qed.
+
+  Lemma InvL_ext_own : forall ex hist x s' o,
+    InvL ex hist x -> ext (st x) s' -> List.length (st x) <= o ->
+    InvL (o :: ex) hist {| st := s'; rcache := rcache x; dcache := dcache x |}.
+  Proof.
+    intros ex hist x s' o I E Ho. unfold InvL. cbn [st].
+    eapply inv_weaken; [|eapply inv_agree; [exact I|]].
+    - cbn beta. intros r [Hr He]. split; [pose proof (ext_len _ _ E); lia|].
+      intros [Hin|Hin]; [lia | exact (He Hin)].
+    - intros r [Hr _]. apply ext_sget; assumption.
+  Qed.
+
+  Lemma resolver_fob_spec : forall ex hist x ixs x1 proto,
+    InvL ex hist x -> (forall e, In e ex -> e < List.length (st x)) ->
+    resolver_find_or_build mk_names mk_iif x ixs = (x1, proto) ->
+    ext (st x) (st x1) /\ InvL ex hist x1 /\ find_key ixs (rcache x1) = Some proto.
+  Proof.
+    intros ex hist x ixs x1 proto I Hex H. unfold resolver_find_or_build in H.
+    destruct (find_key ixs (rcache x)) as [h|] eqn:F.
+    - inversion H; subst. split; [apply ext_refl|]. split; [exact I | exact F].
+    - destruct (build_resolver mk_names mk_iif (st x) ixs) as [s1 h] eqn:B. inversion H; subst; clear H.
+      destruct (build_resolver_spec _ _ _ _ B) as [E PO]. cbn [st rcache].
+      split; [exact E|]. split.
+      + pose proof (InvL_ext ex hist x s1 I E) as [I1 I2]. split; cbn [st rcache dcache] in *.
+        * intros k h0 Fk. cbn [find_key] in Fk. destruct (key_eqb k ixs) eqn:K.
+          -- apply key_eqb_eq in K. subst k. inversion Fk; subst h0.
+             eapply proto_ok_weaken; [|exact PO]. cbn beta. intros r [Hr1 Hr2]. split; [exact Hr2|].
+             intro Hin. apply Hex in Hin. lia.
+          -- apply I1. exact Fk.
+        * exact I2.
+      + cbn [find_key]. assert (K : key_eqb ixs ixs = true) by (apply key_eqb_eq; reflexivity). rewrite K. reflexivity.
+  Qed.
+
+  Lemma dq_fob_spec : forall ex hist c x x1 r,
+    InvL ex hist x -> (forall e, In e ex -> e < List.length (st x)) ->
+    dq_find_or_build dq_diff dkey x (cl_archs c) = (x1, r) ->
+    ext (st x) (st x1) /\ InvL ex (hist ++ [c]) x1 /\ find_key (dkey (cl_archs c)) (dcache x1) = Some r.
+  Proof.
+    intros ex hist c x x1 r I Hex H. unfold dq_find_or_build in H.
+    destruct (find_key (dkey (cl_archs c)) (dcache x)) as [r0|] eqn:F.
+    - inversion H; subst. split; [apply ext_refl|]. split; [apply inv_hist; exact I | exact F].
+    - unfold alloc in H. inversion H; subst; clear H. cbn [st dcache].
+      split; [apply ext_alloc|]. split.
+      + pose proof (InvL_ext ex hist x _ I (ext_alloc (st x) (ODq (dq_diff (cl_archs c))))) as I'.
+        apply (inv_hist _ hist c) in I'. destruct I' as [I1 I2]. split; cbn [st rcache dcache] in *.
+        * exact I1.
+        * intros k r0 Fk. cbn [find_key] in Fk. destruct (key_eqb k (dkey (cl_archs c))) eqn:K.
+          -- apply key_eqb_eq in K. subst k. inversion Fk; subst r0. split.
+             ++ split; [rewrite app_length; cbn [List.length]; lia|]. intro Hin. apply Hex in Hin. lia.
+             ++ exists (cl_archs c). split; [rewrite map_app; apply in_or_app; right; left; reflexivity|].
+                split; [reflexivity | apply sget_alloc_new].
+          -- apply I2. exact Fk.
+      + cbn [find_key]. assert (K : key_eqb (dkey (cl_archs c)) (dkey (cl_archs c)) = true) by (apply key_eqb_eq; reflexivity).
+        rewrite K. reflexivity.
+  Qed.
+
+  (* ---- one call, up to the point where the core runs -------------------------------- *)
+  Definition pre_core (x : state) (c : call) : state * handles :=
+    let (x1, h) := resolver_get true x (cl_indexes c) in
+    let (x2, d) := dq_get true x1 (cl_archs c) in
+    (x2, {| hs_res := h; hs_dq := d |}).
+
+  Lemma call_step_pre : forall x c,
+    call_step true x c =
+    let (x2, hs) := pre_core x c in
+    let (s3, r) := core (st x2) hs (cl_world c) in
+    ({| st := s3; rcache := rcache x2; dcache := dcache x2 |}, r).
+  Proof.
+    intros x c. unfold Caches.call_step, pre_core.
+    destruct (resolver_get true x (cl_indexes c)) as [x1 h].
+    destruct (dq_get true x1 (cl_archs c)) as [x2 d]. reflexivity.
+  Qed.
+
+  Definition fresh_view (c : call) (a : list (string * list idxid)) : rview :=
+    {| v_idx := cl_indexes c; v_names := mk_names (cl_indexes c); v_iif := mk_iif (cl_indexes c);
+       v_sel := []; v_dq := dq_diff a |}.
+
+  Lemma pre_core_spec : forall hist x c x2 hs,
+    InvL [] hist x -> pre_core x c = (x2, hs) ->
+    ext (st x) (st x2) /\
+    InvL [hs_dq hs; h_sel (hs_res hs)] (hist ++ [c]) x2 /\
+    List.length (st x) <= h_sel (hs_res hs) < List.length (st x2) /\ List.length (st x) <= hs_dq hs < List.length (st x2) /\
+    exists a, In a (List.map cl_archs (hist ++ [c])) /\ dkey a = dkey (cl_archs c) /\
+              view (st x2) hs = Some (fresh_view c a).
+  Proof.
+    intros hist x c x2 hs I H. unfold pre_core, Caches.resolver_get, Caches.dq_get in H.
+    destruct (resolver_find_or_build mk_names mk_iif x (cl_indexes c)) as [xa proto] eqn:E1.
+    destruct (resolver_fob_spec [] hist x _ _ _ I (fun e (F : In e []) => match F with end) E1) as [X1 [I1 F1]].
+    destruct (clone_resolver (st xa) proto) as [sb h'] eqn:E2.
+    pose proof (proj1 I1 _ _ F1) as PO.
+    destruct (clone_resolver_spec _ _ _ _ _ _ PO E2) as [X2 [L2 [S2 V2]]].
+    set (xb := {| st := sb; rcache := rcache xa; dcache := dcache xa |}) in *.
+    (* the clone's selected is owned from here on *)
+    assert (Ib : InvL [h_sel h'] hist xb).
+    { apply (InvL_ext_own [] hist xa sb (h_sel h') I1 X2). lia. }
+    destruct (dq_find_or_build dq_diff dkey xb (cl_archs c)) as [xc r] eqn:E3.
+    assert (Hexb : forall e, In e [h_sel h'] -> e < List.length (st xb)).
+    { intros e [<-|[]]. cbn [st xb]. lia. }
+    destruct (dq_fob_spec [h_sel h'] hist c xb _ _ Ib Hexb E3) as [X3 [I3 F3]].
+    unfold alloc in H. inversion H; subst x2 hs; clear H. cbn [st rcache dcache hs_res hs_dq].
+    destruct (proj2 I3 _ _ F3) as [[Pr1 Pr2] [a [Ia [Ka Ga]]]]. rewrite Ga.
+    set (sd := st xc ++ [ODq (dq_diff a)]).
+    assert (X4 : ext (st xc) sd) by apply ext_alloc.
+    split; [eapply ext_trans; [exact X1|]; eapply ext_trans; [exact X2|]; eapply ext_trans; [exact X3 | exact X4]|].
+    assert (Lsd : List.length sd = List.length (st xc) + 1) by (unfold sd; rewrite app_length; cbn [List.length]; lia).
+    pose proof (ext_len _ _ X3) as L3. cbn [st xb] in L3.
+    split.
+    { apply (InvL_ext_own [h_sel h'] (hist ++ [c]) xc sd (List.length (st xc)) I3 X4). lia. }
+    pose proof (ext_len _ _ X1) as L1.
+    split; [lia|]. split; [lia|].
+    exists a. split; [exact Ia|]. split; [exact Ka|].
+    assert (V4 : view_ok sd h' (cl_indexes c)).
+    { eapply view_ok_ext; [|exact V2]. eapply ext_trans; [exact X3 | exact X4]. }
+    destruct V4 as [Va [Vb [Vc Vd]]]. unfold view, fresh_view. cbn [hs_res hs_dq].
+    rewrite Va, Vb, Vc, Vd. unfold sd at 1. rewrite sget_alloc_new. reflexivity.
+  Qed.
+
+  Lemma InvL_empty : InvL [] [] empty_state.
+  Proof. split; cbn [rcache dcache empty_state find_key]; intros; discriminate. Qed.
+
+  Lemma call_step_inv : forall hist x c, InvL [] hist x -> InvL [] (hist ++ [c]) (fst (call_step true x c)).
+  Proof.
+    intros hist x c I. rewrite call_step_pre. destruct (pre_core x c) as [x2 hs] eqn:E.
+    destruct (pre_core_spec hist x c x2 hs I E) as [X [I2 [Ls [Ld _]]]].
+    pose proof (core_frame (st x2) hs (cl_world c)) as CF. pose proof (core_len (st x2) hs (cl_world c)) as CL.
+    destruct (core (st x2) hs (cl_world c)) as [s3 r] eqn:C. cbn [fst] in *.
+    unfold InvL in *. cbn [st]. eapply inv_weaken; [|eapply (inv_agree _ _ x2 s3); [exact I2|]].
+    - cbn beta. intros r0 [Hr Hn]. split; [lia | intros []].
+    - intros r0 [Hr Hn]. apply CF; intro; subst r0; apply Hn; [right; left | left]; reflexivity.
+  Qed.
+
+  Lemma run_history_snoc : forall cl hist c,
+    run_history cl (hist ++ [c]) = fst (Caches.call_step mk_names mk_iif dq_diff dkey R core cl (run_history cl hist) c).
+  Proof. intros. unfold Caches.run_history. rewrite fold_left_app. reflexivity. Qed.
+
+  Lemma run_history_inv : forall hist, InvL [] hist (run_history true hist).
+  Proof.
+    induction hist as [|c hist IH] using rev_ind; [exact InvL_empty|].
+    rewrite run_history_snoc. apply call_step_inv. exact IH.
+  Qed.
+
+  (* FRAME: whatever happened before, a call never changes an object that
+     existed when it started - in particular no cached prototype, none of the
+     slices inside its maps, no cached disqualification map. It writes only to
+     what its own clones allocated. *)
+  Lemma call_frame : forall hist c r,
+    let x := run_history true hist in
+    r < List.length (st x) ->
+    sget (st (fst (call_step true x c))) r = sget (st x) r.
+  Proof.
+    intros hist c r x Hr. pose proof (run_history_inv hist) as I. fold x in I.
+    rewrite call_step_pre. destruct (pre_core x c) as [x2 hs] eqn:E.
+    destruct (pre_core_spec hist x c x2 hs I E) as [X [_ [Ls [Ld _]]]].
+    pose proof (core_frame (st x2) hs (cl_world c) r) as CF.
+    destruct (core (st x2) hs (cl_world c)) as [s3 r0] eqn:C. cbn [fst st] in *.
+    rewrite CF by lia. apply ext_sget; assumption.
+  Qed.
+
+  (* the cached prototypes stay what newPkgResolver built, with an empty selected *)
+  Lemma cached_prototypes_pristine : forall hist k h,
+    find_key k (rcache (run_history true hist)) = Some h ->
+    view_ok (st (run_history true hist)) h k.
+  Proof.
+    intros hist k h F. destruct (proj1 (run_history_inv hist) k h F)
+      as [nm [im [_ [_ [_ [_ [_ [_ [G1 [G2 [D1 [G3 [D2 G4]]]]]]]]]]]]].
+    unfold view_ok, deref_map. rewrite G1, G2, G3, G4, D1, D2. tauto.
+  Qed.
+
+  (* HISTORY INDEPENDENCE *)
+  Definition GroupingCompatible (hist : list call) (c : call) : Prop :=
+    forall c', In c' hist -> dkey (cl_archs c') = dkey (cl_archs c) -> dq_diff (cl_archs c') = dq_diff (cl_archs c).
+
+  Lemma view_after : forall hist c,
+    GroupingCompatible hist c ->
+    let (x2, hs) := pre_core (run_history true hist) c in
+    view (st x2) hs = Some (fresh_view c (cl_archs c)).
+  Proof.
+    intros hist c G. destruct (pre_core (run_history true hist) c) as [x2 hs] eqn:E.
+    destruct (pre_core_spec hist _ c x2 hs (run_history_inv hist) E) as [_ [_ [_ [_ [a [Ia [Ka V]]]]]]].
+    rewrite V. f_equal. unfold fresh_view. f_equal.
+    rewrite map_app in Ia. apply in_app_or in Ia. destruct Ia as [Ia|[<-|[]]]; [|reflexivity].
+    apply in_map_iff in Ia. destruct Ia as [c' [<- Ic']]. apply G; assumption.
+  Qed.
+
+  Lemma history_independent : forall hist c,
+    GroupingCompatible hist c -> result_after true hist c = result_fresh true c.
+  Proof.
+    intros hist c G. unfold Caches.result_fresh, Caches.result_after.
+    rewrite !call_step_pre.
+    pose proof (view_after hist c G) as V1.
+    assert (G0 : GroupingCompatible [] c) by (intros c' []).
+    pose proof (view_after [] c G0) as V2.
+    destruct (pre_core (run_history true hist) c) as [x2 hs].
+    destruct (pre_core (run_history true []) c) as [y2 hs'].
+    pose proof (core_reads (st x2) (st y2) hs hs' (cl_world c)) as CR.
+    destruct (core (st x2) hs (cl_world c)) as [s3 r]. destruct (core (st y2) hs' (cl_world c)) as [t3 r'].
+    cbn [snd] in *. apply CR. rewrite V1, V2. reflexivity.
+  Qed.
+
+  (* what the core is handed, in general: the right maps, an empty selected,
+     and the disqualification set of SOME call with the same key *)
+  Lemma dq_handed_spec : forall hist c,
+    exists a, In a (List.map cl_archs (hist ++ [c])) /\ dkey a = dkey (cl_archs c) /\
+              dq_handed mk_names mk_iif dq_diff dkey R core hist c = dq_diff a.
+  Proof.
+    intros hist c.
+    pose proof (pre_core_spec hist (run_history true hist) c) as PS. unfold pre_core in PS.
+    unfold Caches.dq_handed.
+    destruct (resolver_get true (run_history true hist) (cl_indexes c)) as [x1 h].
+    destruct (dq_get true x1 (cl_archs c)) as [x2 d].
+    destruct (PS x2 _ (run_history_inv hist) eq_refl) as [_ [_ [_ [_ [a [Ia [Ka V]]]]]]].
+    exists a. split; [exact Ia|]. split; [exact Ka|].
+    unfold view in V. cbn [hs_res hs_dq] in V.
+    destruct (sget (st x2) (h_idx h)) as [[| | | |ix]|]; try discriminate.
+    destruct (deref_map (st x2) (h_names h)); try discriminate.
+    destruct (deref_map (st x2) (h_iif h)); try discriminate.
+    destruct (sget (st x2) (h_sel h)) as [[sel| | | |]|]; try discriminate.
+    destruct (sget (st x2) d) as [[| | |dd|]|]; try discriminate.
+    inversion V. reflexivity.
+  Qed.
+End Frame.
+
+(* ---- cores given by a pure function of the view satisfy the frame hypothesis ------ *)
+Lemma core_of_frame : forall R f (fail : R), CoreWritesOnlyOwned R (core_of f fail).
+Proof.
+  intros R f fail s h w r H1 H2. unfold core_of. destruct (view s h) as [v|]; [|reflexivity].
+  destruct (f v w) as [[sel' dq'] res]. cbn [fst]. rewrite !sget_sset_other by assumption. reflexivity.
+Qed.
+
+Lemma core_of_len : forall R f (fail : R), CoreKeepsLength R (core_of f fail).
+Proof.
+  intros R f fail s h w. unfold core_of. destruct (view s h) as [v|]; [|cbn [fst]; lia].
+  destruct (f v w) as [[sel' dq'] res]. cbn [fst]. rewrite !sset_length. lia.
+Qed.
+
+Lemma core_of_reads : forall R f (fail : R), CoreReadsThroughHandles R (core_of f fail).
+Proof.
+  intros R f fail s s' h h' w E. unfold core_of. rewrite E. destruct (view s' h') as [v|]; [|reflexivity].
+  destruct (f v w) as [[sel' dq'] res]. reflexivity.
+Qed.
+
+(* with a core of that shape, the result after any history IS the pure function
+   applied to the fresh view *)
+Lemma result_of_pure_core : forall mk_names mk_iif dq_diff dkey R f (fail : R) hist c,
+  GroupingCompatible dq_diff dkey hist c ->
+  result_after mk_names mk_iif dq_diff dkey R (core_of f fail) true hist c =
+  snd (f (fresh_view mk_names mk_iif dq_diff c (cl_archs c)) (cl_world c)).
+Proof.
+  intros mk_names mk_iif dq_diff dkey R f fail hist c G. unfold result_after.
+  rewrite (call_step_pre mk_names mk_iif dq_diff dkey R (core_of f fail)).
+  pose proof (view_after mk_names mk_iif dq_diff dkey R (core_of f fail)
+                (core_of_frame R f fail) (core_of_len R f fail) hist c G) as V.
+  destruct (pre_core mk_names mk_iif dq_diff dkey (run_history mk_names mk_iif dq_diff dkey R (core_of f fail) true hist) c) as [x2 hs].
+  unfold core_of at 1. rewrite V. destruct (f _ (cl_world c)) as [[sel' dq'] res]. reflexivity.
+Qed.
+
+(* ---- memo tables -------------------------------------------------------------------- *)
+Section MemoProofs.
+  Variables (K V : Type) (keq : K -> K -> bool).
+  Hypothesis keq_eq : forall a b, keq a b = true <-> a = b.
+  Variable f : K -> option V.
+
+  Lemma mfind_in : forall t k v, mfind K V keq k t = Some v -> exists k', keq k k' = true /\ In (k', v) t.
+  Proof.
+    induction t as [|[k' v'] t IH]; intros k v H; cbn [mfind] in H; [discriminate|].
+    destruct (keq k k') eqn:E.
+    - inversion H; subst. exists k'. split; [exact E | left; reflexivity].
+    - destruct (IH _ _ H) as [k2 [E2 I2]]. exists k2. split; [exact E2 | right; exact I2].
+  Qed.
+
+  Lemma memo_get_ok : forall t k, MemoOk f t ->
+    fst (memo_get K V keq f t k) = f k /\ MemoOk f (snd (memo_get K V keq f t k)).
+  Proof.
+    intros t k M. unfold memo_get. destruct (mfind K V keq k t) as [v|] eqn:F.
+    - destruct (mfind_in _ _ _ F) as [k' [E I]]. apply keq_eq in E. subst k'. cbn [fst snd].
+      split; [symmetry; apply M; exact I | exact M].
+    - destruct (f k) as [v|] eqn:Fk; cbn [fst snd]; split; auto.
+      intros k2 v2 [H|H]; [inversion H; subst; exact Fk | apply M; exact H].
+  Qed.
+
+  Lemma memo_run_ok : forall ks t, MemoOk f t -> MemoOk f (memo_run K V keq f t ks).
+  Proof.
+    induction ks as [|k ks IH]; intros t M; [exact M|].
+    unfold memo_run. cbn [fold_left]. apply IH. apply memo_get_ok. exact M.
+  Qed.
+
+  (* whatever was looked up before, a lookup returns what parsing returns *)
+  Lemma memo_transparent : forall history k,
+    fst (memo_get K V keq f (memo_run K V keq f [] history) k) = f k.
+  Proof.
+    intros history k. apply memo_get_ok. apply memo_run_ok. intros k0 v0 [].
+  Qed.
+End MemoProofs.
+
+(* ---- with the clone removed the statement is false -------------------------------------- *)
+Definition ex_names (ixs : list idxid) : list (string * list pid) := [("a", [(0, 0); (0, 1)]); ("b", [(0, 2)])].
+Definition ex_none (ixs : list idxid) : list (string * list pid) := [].
+Definition ex_dq (a : list (string * list idxid)) : list pid := [].
+Definition ex_key (a : list (string * list idxid)) : list idxid := List.concat (List.map snd a).
+Definition ex_call (w : list string) : call := {| cl_indexes := [0]; cl_world := w; cl_archs := [] |}.
+
+(* `return pr` instead of `return pr.Clone()`: the second resolution finds "a"
+   in the SHARED selected map and skips it *)
+Lemma no_clone_selected_leaks :
+  result_after ex_names ex_none ex_dq ex_key _ toy_core false [ex_call ["a"]] (ex_call ["a"; "b"]) = [Some (0, 2)] /\
+  result_fresh ex_names ex_none ex_dq ex_key _ toy_core false (ex_call ["a"; "b"]) = [Some (0, 0); Some (0, 2)] /\
+  result_after ex_names ex_none ex_dq ex_key _ toy_core true [ex_call ["a"]] (ex_call ["a"; "b"]) = [Some (0, 0); Some (0, 2)].
+Proof. vm_compute. repeat split. Qed.
+
+(* `return dq` instead of `return maps.Clone(dq)`: a disqualification made by
+   one resolution is still there for the next *)
+Lemma no_clone_dq_leaks :
+  result_after ex_names ex_none ex_dq ex_key _ toy_core false [ex_call ["!b"]] (ex_call ["b"]) = [None] /\
+  result_fresh ex_names ex_none ex_dq ex_key _ toy_core false (ex_call ["b"]) = [Some (0, 2)] /\
+  result_after ex_names ex_none ex_dq ex_key _ toy_core true [ex_call ["!b"]] (ex_call ["b"]) = [Some (0, 2)].
+Proof. vm_compute. repeat split. Qed.
+
+(* a core that sorts a shared slice in place breaks the frame hypothesis: the
+   hypothesis is not vacuous *)
+Definition slice_writer (s : store) (h : handles) (w : list string) : store * unit :=
+  match sget s (h_names (hs_res h)) with
+  | Some (OMap ((_, r) :: _)) => (sset s r (OSlice []), tt)
+  | _ => (s, tt)
+  end.
+Lemma slice_writer_breaks_frame : ~ CoreWritesOnlyOwned unit slice_writer.
+Proof.
+  intro H.
+  specialize (H [OMap [("a", 1)]; OSlice [(0, 0)]; OSel []; ODq []]
+                {| hs_res := {| h_idx := 0; h_names := 0; h_iif := 0; h_sel := 2 |}; hs_dq := 3 |} [] 1).
+  cbn in H. assert (E : Some (OSlice []) = Some (OSlice [(0, 0)])) by (apply H; discriminate). discriminate.
+Qed.
+
+(* ---- C08-F2: the key of the disqualification cache forgets the grouping ----------- *)
+Definition f2_universe : universe :=
+  [ {| ix_name := ""; ix_pkgs := [ {| p_name := "only1"; p_version := "1.0"; p_deps := []; p_provides := []; p_iif := []; p_origin := ""; p_prio := 0 |};
+                                   {| p_name := "both"; p_version := "1.0"; p_deps := []; p_provides := []; p_iif := []; p_origin := ""; p_prio := 0 |} ] |};
+    {| ix_name := "zz"; ix_pkgs := [ {| p_name := "both"; p_version := "1.0"; p_deps := []; p_provides := []; p_iif := []; p_origin := ""; p_prio := 0 |} ] |} ].
+Definition f2_multi : call := {| cl_indexes := [0]; cl_world := ["only1"]; cl_archs := [("x", [0]); ("y", [1])] |}.
+Definition f2_single : call := {| cl_indexes := [0; 1]; cl_world := ["only1"]; cl_archs := [("x", [0; 1])] |}.
+Definition f2_names (ixs : list idxid) : list (string * list pid) := [("only1", [(0, 0)]); ("both", [(0, 1)])].
+
+Lemma dq_cache_key_refuted :
+  let handed := dq_handed f2_names ex_none (dq_difference f2_universe) (dq_key f2_universe) _ toy_core in
+  (* the two groupings get the same key although disqualifyDifference differs *)
+  dq_key f2_universe (cl_archs f2_multi) = dq_key f2_universe (cl_archs f2_single) /\
+  dq_difference f2_universe (cl_archs f2_multi) = [(0, 0)] /\
+  dq_difference f2_universe (cl_archs f2_single) = [] /\
+  (* so after the two-architecture call the single-architecture call is handed
+     a set that disqualifies only1, and vice versa *)
+  handed [f2_multi] f2_single = [(0, 0)] /\ handed [] f2_single = [] /\
+  handed [f2_single] f2_multi = [] /\ handed [] f2_multi = [(0, 0)] /\
+  (* and the results differ from a fresh process in both orders *)
+  result_after f2_names ex_none (dq_difference f2_universe) (dq_key f2_universe) _ toy_core true [f2_multi] f2_single
+    <> result_fresh f2_names ex_none (dq_difference f2_universe) (dq_key f2_universe) _ toy_core true f2_single /\
+  result_after f2_names ex_none (dq_difference f2_universe) (dq_key f2_universe) _ toy_core true [f2_single] f2_multi
+    <> result_fresh f2_names ex_none (dq_difference f2_universe) (dq_key f2_universe) _ toy_core true f2_multi.
+Proof. vm_compute. repeat split; discriminate. Qed.
+
+(* hence history independence cannot be stated without the grouping hypothesis *)
+Lemma history_independent_needs_grouping :
+  ~ (forall hist c,
+       result_after f2_names ex_none (dq_difference f2_universe) (dq_key f2_universe) _ toy_core true hist c =
+       result_fresh f2_names ex_none (dq_difference f2_universe) (dq_key f2_universe) _ toy_core true c).
+Proof. intro H. destruct dq_cache_key_refuted as [_ [_ [_ [_ [_ [_ [_ [N _]]]]]]]]. apply N. apply H. Qed.
+
+(* "no earlier call used the same index set under another grouping" *)
+Lemma same_grouping_compatible : forall dq_diff dkey hist c,
+  (forall c', In c' hist -> dkey (cl_archs c') = dkey (cl_archs c) -> cl_archs c' = cl_archs c) ->
+  GroupingCompatible dq_diff dkey hist c.
+Proof. intros dq_diff dkey hist c H c' I K. rewrite (H c' I K). reflexivity. Qed.
